@@ -569,6 +569,32 @@ func verifH_C18_byte_slices() {
 	verifReach("end")
 }
 
+type verifTimes struct {
+	At   time.Time            `json:"at"`
+	PAt  *time.Time           `json:"pat"`
+	List []time.Time          `json:"list"`
+	ByK  map[string]time.Time `json:"byk"`
+}
+
+//verif:harness id=C18 tier=quick,thorough witness=end bounds="time.Time as a field, behind a pointer, as slice element and map value; encodings as encoding/json writes them (RFC 3339 with up to nine fraction digits): zone Z or an offset with sign +/-, hours 00..14 (real zones reach +14:00 and -12:00), minutes 00 / 30 / 45; fraction none / one digit / nine digits; dates 0001-01-01, a leap day, 9999-12-31; seconds 00 / 59: the generated schema accepts each encoding"
+func verifH_C18_times() {
+	comps := openapi3.Schemas{}
+	ref, err := NewSchemaRefForValue(&verifTimes{}, comps)
+	verifAssert(err == nil && ref != nil && ref.Value != nil, "C18 times: generation succeeds")
+	if err != nil || ref == nil || ref.Value == nil {
+		return
+	}
+	text := []string{"0001-01-01", "2024-02-29", "9999-12-31"}[verifChoose("date", 3)] + "T" + []string{"00:00:00", "23:59:59"}[verifChoose("clock", 2)] + []string{"", ".5", ".123456789"}[verifChoose("fraction", 3)]
+	if h := verifChoose("zone", 16); h == 15 {
+		text += "Z"
+	} else {
+		text += []string{"+", "-"}[verifChoose("sign", 2)] + string([]byte{byte('0' + h/10), byte('0' + h%10)}) + ":" + []string{"00", "30", "45"}[verifChoose("minutes", 3)]
+	}
+	enc := map[string]any{"at": text, "pat": text, "list": []any{text}, "byk": map[string]any{"k": text}}
+	verifAssert(ref.Value.VisitJSON(enc) == nil, "C18 times: the generated schema accepts a time as encoding/json writes it, in every zone")
+	verifReach("end")
+}
+
 type verifThing struct {
 	N int32 `json:"n"`
 }
